@@ -61,6 +61,21 @@ def shape_histories(rng, sc, tier, drv):
                 a = os.path.join(sc, "shape%d_%d%s.lzh" % (k, lvl, "p" if b"sub" in nm else ""))
                 open(a, "wb").write(m.bytes() + RG.G("file", b"second", data=b"2nd", level=2).raw() + b"\0")
                 archives.append(a)
+    # special contents of the string-valued headers: names and paths a decoder may treat specially
+    specials = {0x01: [b".", b"..", b"", b"a/b", b"/", b"x|y", b"|", b"a\\b", b"n" * 300, b"\xff", b"..\\x"],
+                0x02: [b"", b"/", b"\xff", b"..\xff", b".\xff", b"a\xff\xffb\xff", b"a\xff..\xff", b"\xff\xff", b"a/b/", b"p" * 300 + b"\xff", b"a\\b\\"],
+                0x52: [b"", b"g" * 300], 0x53: [b"", b"u" * 300], 0x00: [b"", b"\x00" * 40]}
+    sk = 0
+    for t, vals in sorted(specials.items()):
+        for v in vals:
+            for lvl, nm in ((1, b"inhdr"), (2, b""), (3, b"")):
+                sk += 1
+                ext = arc.x_common(v) if t == 0x00 else (t, v)
+                exts = [ext] + ([arc.x_name(b"nm%d" % sk)] if (lvl >= 2 and t != 0x01 and sk % 2) else [])
+                m = arc.Member(level=lvl, method=b"-lh0-", name=nm, payload=b"abc", time=12345678, os=ord("U"), exts=exts)
+                a = os.path.join(sc, "special%d_%02x_%d.lzh" % (sk, t, lvl))
+                open(a, "wb").write(m.bytes() + RG.G("file", b"second", data=b"2nd", level=2).raw() + b"\0")
+                archives.append(a)
     truths, bad = gtref.reference_truths(drv, archives, sc, tag="shaperef")
     if bad:
         raise V.HarnessError("reference run failed on header-shape archives: %r" % (bad[:2],))
